@@ -205,6 +205,9 @@ def _mkindex(ctx, n):
     if kind == 'bool':
         bits = [ctx.flag(f'b{k}') for k in range(n)]
         m = np.array(bits)
+        if ctx.flag('aslist'):
+            # the same mask given as a plain Python list of bools
+            m = [bool(b) for b in bits]
         return kind, m, m, False
     # label / id based selection
     i = ctx.choice('i', list(range(n)))
